@@ -148,8 +148,32 @@ def extract(repo):
                 for x in ast.walk(t.slice):
                     if isinstance(x, ast.Name) and x.id in masks:
                         neg_mask = x.id
+    # second form of the sign change: the columns of the primal matrix are scaled by a +-1 vector,
+    #     flip = np.ones(nv); flip[mask] = -1; M = M @ sp.diags(flip)
+    # which only reaches the row blocks that are already part of M at that point
+    flip_line = None
+    if neg_mask is None:
+        flips = {}
+        for n in ast.walk(mod):
+            if isinstance(n, ast.Assign) and isinstance(n.targets[0], ast.Subscript) and \
+                    isinstance(n.targets[0].value, ast.Name) and isinstance(n.targets[0].slice, ast.Name) and \
+                    n.targets[0].slice.id in masks and isinstance(n.value, ast.UnaryOp) and \
+                    isinstance(n.value.op, ast.USub) and isinstance(n.value.operand, ast.Constant) and \
+                    n.value.operand.value == 1:
+                flips[n.targets[0].value.id] = n.targets[0].slice.id
+        for n in ast.walk(mod):
+            if isinstance(n, ast.Assign) and len(n.targets) == 1 and isinstance(n.targets[0], ast.Name) and \
+                    'linear' in n.targets[0].id and isinstance(n.value, ast.BinOp) and \
+                    isinstance(n.value.op, ast.MatMult):
+                for x in ast.walk(n.value.right):
+                    if isinstance(x, ast.Name) and x.id in flips and 'diags' in ntext(n.value.right):
+                        neg_mask = flips[x.id]
+                        flip_line = n.lineno
     if free_mask is None or neg_mask is None:
         raise AnalysisError('R14: free / non-positive treatment of the dual rows not found')
+    for b in blocks:
+        # is the block part of the matrix when the sign change is applied?
+        b['flipped'] = flip_line is None or b['node'].lineno < flip_line
     # the objective row of the dual (dual_const) must be negated together with the row
     neg_const = any(isinstance(n, ast.Assign) and isinstance(n.targets[0], ast.Subscript)
                     and 'const' in ntext(n.targets[0].value) and ntext(n.targets[0].slice) == neg_mask
@@ -172,6 +196,8 @@ def represented(masks, blocks, free_mask, neg_mask, lb, ub):
         k, which = b['rhs']
         r = k * (ub if which == 'ub' else lb)
         c = b['coef']
+        if not b.get('flipped', True) and eval_mask(masks[neg_mask], lb, ub):
+            c = -c          # the row was appended after the column of this x <= 0 variable was negated
         rows.append('%+g x %s %g' % (c, '=' if b['sense'] else '<=', r))
         x0 = r / c
         if b['sense'] == 1:
